@@ -66,6 +66,7 @@ func (s *mixed) Plan(w *World) {
 	w.DupPct = int(t.Draw(30))
 	w.DelayMaxNs = 1e9
 	w.Sim.SetPoolReuse(1 + int(t.Draw(2)))
+	w.Sim.SetPoolStale(t.Draw(2) == 1)
 	n := t.Range(4, 40)
 	var at int64
 	for i := 0; i < n; i++ {
